@@ -381,6 +381,10 @@ async def stored_messages(part, r, backend, n):
             cmds += [b'FETCH * (' + a + b')' for a in c07.FETCH_ATTRS] + [b'FETCH * FULL', b'UID FETCH * (BODY.PEEK[1.1] BODY.PEEK[2.HEADER] BODY.PEEK[1.TEXT]<2.3>)']
             cmds += [b'SEARCH ' + key for key in (b'TEXT "x"', b'BODY "x"', b'SENTSINCE 1-Jan-2020', b'SENTBEFORE 1-Jan-2020', b'FROM "a"', b'TO "b"', b'CC "c"', b'BCC "d"', b'SUBJECT "e"',
                                                    b'HEADER Date ""', b'HEADER X-A "a"', b'LARGER 1', b'SMALLER 100', b'ON 1-Jan-2020', b'THREADID Tx', b'EMAILID Mx', b'NEW', b'OR ALL NOT ALL')]
+            # part paths as deep as the nesting goes, and around the depth where the MIME parser stops following it (100)
+            for depth_ in (3, 99, 100, 101, 120):
+                path = b'.'.join([b'1'] * depth_)
+                cmds.append(b'FETCH * (BODY.PEEK[' + path + b'.HEADER] BODY.PEEK[' + path + b'.TEXT] BODY.PEEK[' + path + b'.MIME] BODY.PEEK[' + path + b'])')
             cmds += [b'COPY * INBOX', b'STORE * +FLAGS (\\Deleted)', b'EXPUNGE']
             for body in cmds:
                 if c.task.done():
